@@ -72,6 +72,8 @@ pub enum Finals {
     ReopenSame,
     /// C02: a process-crash image taken once every thread has been acknowledged recovers exactly the acknowledged state
     CrashImage,
+    /// C03: in such an image every batch/transaction is present entirely or not at all
+    CrashAtomic,
 }
 
 enum AnyDb {
@@ -113,17 +115,29 @@ impl Body for VisBody {
     }
 
     fn launch(&self, dir: &Path) -> Launched {
-        let db = match self.kind {
-            Kind::Plain => AnyDb::Plain(Database::builder(dir).worker_threads_unchecked(self.workers).open().expect("open")),
-            Kind::Sw => AnyDb::Sw(SingleWriterTxDatabase::builder(dir).worker_threads_unchecked(self.workers).open().expect("open")),
-            Kind::Occ => AnyDb::Occ(OptimisticTxDatabase::builder(dir).worker_threads_unchecked(self.workers).open().expect("open")),
+        let open = |workers: usize| match self.kind {
+            Kind::Plain => AnyDb::Plain(Database::builder(dir).worker_threads_unchecked(workers).open().expect("open")),
+            Kind::Sw => AnyDb::Sw(SingleWriterTxDatabase::builder(dir).worker_threads_unchecked(workers).open().expect("open")),
+            Kind::Occ => AnyDb::Occ(OptimisticTxDatabase::builder(dir).worker_threads_unchecked(workers).open().expect("open")),
         };
+        // bodies tagged "[reopened]" run on a recovered database (Database::recover builds the shared counters and the
+        // snapshot tracker on another path than create_new): prepared without workers, closed, opened again
+        let reopened = self.name.contains("[reopened]");
+        let mut db = open(if reopened { 0 } else { self.workers });
         let mut kss: BTreeMap<&'static str, Keyspace> = BTreeMap::new();
         for n in &self.keyspaces {
             kss.insert(n, db.inner().keyspace(n, KeyspaceCreateOptions::default).expect("ks"));
         }
         for (ks, k, v) in &self.initial {
             kss[ks].insert(*k, *v).expect("prep");
+        }
+        if reopened {
+            kss.clear();
+            drop(db);
+            db = open(self.workers);
+            for n in &self.keyspaces {
+                kss.insert(n, db.inner().keyspace(n, KeyspaceCreateOptions::default).expect("ks"));
+            }
         }
         for ks in &self.prerotate {
             kss[ks].rotate_memtable().expect("prep rotate");
@@ -291,7 +305,7 @@ impl Body for VisBody {
                     }
                 }
                 *final_state.lock().unwrap() = out;
-                if finals == Finals::CrashImage {
+                if finals == Finals::CrashImage || finals == Finals::CrashAtomic {
                     let _ = crate::crash::copy_tree(&dirp, &dirp.with_extension("img"));
                 }
                 drop(kss);
@@ -335,6 +349,25 @@ impl Body for VisBody {
                             let got = content.get(ks).and_then(|m| m.get(k.as_bytes())).map(|v| String::from_utf8_lossy(v).into_owned()).unwrap_or_else(|| "-".into());
                             if &got != scan {
                                 return Err(Violation::new("crash_image.acknowledged_write_missing", format!("every thread had been acknowledged; {ks}.{k} was {scan} but a crash image taken then recovers {got}")));
+                            }
+                        }
+                    }
+                    other => return Err(Violation::new("crash_image.recovery_failed", format!("{other:?}"))),
+                }
+            }
+            if finals == Finals::CrashAtomic {
+                let img = dir.with_extension("img");
+                let rec = crate::crash::recover_and_observe_inproc(&img, &crate::world::Cfg::default2());
+                let _ = std::fs::remove_dir_all(&img);
+                match rec {
+                    crate::crash::Recovered::Ok { content, .. } => {
+                        for (_tid, items) in groups.iter().filter(|g| g.1.len() > 1) {
+                            let vis: Vec<(String, bool)> = items
+                                .iter()
+                                .map(|(ks, k, v)| (format!("{ks}.{k}"), content.get(*ks).and_then(|m| m.get(k.as_bytes())).map(|x| x.as_slice() == v.as_bytes()).unwrap_or(false)))
+                                .collect();
+                            if vis.iter().any(|x| x.1) && vis.iter().any(|x| !x.1) {
+                                return Err(Violation::new("crash_image.batch_partially_recovered", format!("a crash image taken after every thread finished recovers only part of the batch: {vis:?}")));
                             }
                         }
                     }
@@ -454,6 +487,9 @@ pub fn bodies(tier: &str) -> Vec<BodySpec> {
     v.push(b(VisBody { name: "2 batch writers|snapshot [focus:commit-path]", kind: Kind::Plain, workers: 0, keyspaces: vec!["x", "y"], initial: init.clone(), prerotate: vec![], threads: vec![vec![Batch(vec![("x", "a", "1"), ("y", "b", "1")])], vec![Batch(vec![("x", "b", "1"), ("y", "a", "1")])], reader.clone()], finals: Finals::None }, if q { 2 } else { 3 }, if q { 5.0 } else { 300.0 }));
     v.push(b(VisBody { name: "sw-tx same key in two keyspaces|snapshot", kind: Kind::Sw, workers: 0, keyspaces: vec!["x", "y"], initial: init.clone(), prerotate: vec![], threads: vec![vec![Tx(vec![("x", "a", "1"), ("y", "a", "1")])], vec![SnapRead(vec![("x", "a"), ("y", "a")])]], finals: Finals::None }, 1, if q { 3.0 } else { 60.0 }));
     v.push(b(VisBody { name: "occ-tx same key in two keyspaces|snapshot", kind: Kind::Occ, workers: 0, keyspaces: vec!["x", "y"], initial: init.clone(), prerotate: vec![], threads: vec![vec![Tx(vec![("x", "b", "1"), ("y", "b", "1")])], vec![SnapRead(vec![("x", "b"), ("y", "b")])]], finals: Finals::None }, 1, if q { 3.0 } else { 60.0 }));
+    v.push(b(VisBody { name: "batch|snapshot [reopened]", kind: Kind::Plain, workers: 0, keyspaces: vec!["x", "y"], initial: init.clone(), prerotate: vec![], threads: vec![writer.clone(), reader.clone()], finals: Finals::None }, if q { 2 } else { 3 }, if q { 3.0 } else { 120.0 }));
+    v.push(b(VisBody { name: "sw-tx|snapshot [reopened]", kind: Kind::Sw, workers: 0, keyspaces: vec!["x", "y"], initial: init.clone(), prerotate: vec![], threads: vec![vec![Tx(vec![("x", "a", "1"), ("y", "b", "1")])], reader.clone()], finals: Finals::None }, 2, if q { 2.0 } else { 60.0 }));
+    v.push(b(VisBody { name: "occ-tx|snapshot [reopened]", kind: Kind::Occ, workers: 0, keyspaces: vec!["x", "y"], initial: init.clone(), prerotate: vec![], threads: vec![vec![Tx(vec![("x", "a", "1"), ("y", "b", "1")])], reader.clone()], finals: Finals::None }, 2, if q { 2.0 } else { 60.0 }));
     if !q {
         let z_init = { let mut i = init.clone(); i.push(("z", "a", "0")); i };
         v.push(b(VisBody { name: "batch|snapshot|clear-z", kind: Kind::Plain, workers: 0, keyspaces: vec!["x", "y", "z"], initial: z_init.clone(), prerotate: vec![], threads: vec![writer.clone(), reader.clone(), vec![Clear("z")]], finals: Finals::None }, 2, 200.0));
